@@ -18,6 +18,9 @@ def plan(tier):
         pl += [(PG.warm_then(1, 0.05, "await"), 2, PT), (PG.warm_then(2, 0.05, "await"), 2, dict(kinds=("T",))),
                (PG.idle_then_submit(1, 0.05), 2, dict(kinds=("T", "P"), p_scope="parent:")),
                (PG.timeout_resize(2, 1), 2, dict(kinds=("T",), t_scope="worker", t_cur="parent:"))]
+    # environment answer "Process.start() returns late": a growing resize whose fresh workers are
+    # idle past their timeout before the parent has recorded them (seed C07g)
+    pl += [(PG.grow_slow_start(1, 2), 1, PT), (PG.grow_slow_start(2, 3), 1, PT)]
     # the same races in an interpreter that turns warnings into errors (known finding F30)
     pl += [(PG.with_werror(PG.idle_then_submit(1, 0.05)), 1, PT),
            (PG.with_werror(PG.warm_then(1, 0.05, "await")), 1, dict(kinds=("T",)))]
